@@ -51,7 +51,7 @@ impl Observer {
     Observer { serial_hash: 0, serial_count: 0, sb: 0, dispatches: [0; 6], dma_starts: 0, bank_writes: 0, ram_blocks: 0, halted_steps: 0, ram_hash: [0; 5], dirty: [true; 5] }
   }
   pub fn feed(&mut self) {
-    for e in verif::events().iter() {
+    for e in support::masked_events().iter() {
       if e.kind == EV_WRITE {
         match e.a {
           0x8000..=0x9fff => self.dirty[0] = true,
@@ -298,12 +298,12 @@ pub fn run(ctx: &mut Ctx) {
   let seed = ctx.seed;
   let (nprog, steps): (u64, u64) = match (kind.as_str(), thorough) {
     ("c03", false) => (160, 5_000),
-    ("c03", true) => (1200, 12_000),
+    ("c03", true) => (800, 10_000),
     (_, false) => (160, 6_000),
     (_, true) => (1000, 20_000),
   };
   let prop = if kind == "c03" { "C03" } else { "C04" };
-  let cold_steps: u64 = if thorough { 2_500 } else { 200 };
+  let cold_steps: u64 = if thorough { 600 } else { 200 };
   let mut evaluations = 0u64;
   let mut obs_tot = Observer::new();
   let mut cache_hits_after_switch = 0u64;
